@@ -12,6 +12,18 @@ def _sg_work(args):
   return [(k, n, bound, r) for r in res]
 
 
+def _sg_stall_work(args):
+  """random schedules in which a thread may be slow (held back while virtual time passes): a lock taken with a timeout, a wait with a
+  timeout, a retry after a pause behave differently then"""
+  k, n, count, seed = args
+  out = []
+  for i in range(count):
+    rng = random.Random((seed << 16) ^ (i * 7919) ^ hash(k) % 1000)
+    pol = dsched.StallPolicy(dsched.RandomPolicy(rng, rng.choice([0.0, 0.5, 0.8])), rng, p=rng.choice([0.05, 0.15, 0.3]), durations=(2, 3, 5), max_stalls=2)
+    out.append((k, n, -1, utildrive.singleton_run(k, n, pol)))
+  return out
+
+
 def trace_validate(module, records, cfg="SPECIFICATION TSpec\nCHECK_DEADLOCK FALSE\n"):
   path = os.path.join(common.work_dir(), module + "_%d.ndjson" % (id(records) % 10**7))
   with open(path, "w") as f:
@@ -32,7 +44,9 @@ def c30(tier):
   run = common.Run("C30", tier, "model_checking")
   run.assumptions += ASSUME_B + ["pre-emption points: every source line of miros/singleton.py, every read/write of the decorator's instance slot, "
                                  "the constructor, and lock operations",
-                                 "two concurrent first requests are explored with at most 3 (quick) / 5 (thorough) pre-emptions, three with at most 2 / 3"]
+                                 "two concurrent first requests are explored with at most 3 (quick) / 5 (thorough) pre-emptions, three with at most 2 / 3",
+                                 "plus random schedules with slow threads: a thread may be held back for 2-5 units of virtual time, lock operations with a "
+                                 "timeout give up at their deadline"]
   for threads in (['"t1"', '"t2"'], ['"t1"', '"t2"', '"t3"']):
     cfg = "SPECIFICATION Spec\nCONSTANTS Threads = {%s}\nVariant = \"locked\"\nINVARIANT OneInstance\nINVARIANT SameForAll\n" % ", ".join(threads)
     r = tlc.run("Singleton.tla", cfg, workers=4, timeout=600)
@@ -45,6 +59,7 @@ def c30(tier):
          [(k, 3, 2 if tier == "quick" else 3, 1500 if tier == "quick" else 20000) for k in KLASSES]
   with mp.get_context("fork").Pool(12) as pool:
     allres = [x for part in pool.map(_sg_work, jobs) for x in part]
+    allres += [x for part in pool.map(_sg_stall_work, [(k, n, 60 if tier == "quick" else 1500, common.seed()) for k in KLASSES for n in (2, 3)]) for x in part]
   recs = [{"tid": i, "made": r["made"], "got": r["got"], "final": r["final"], "errors": r["errors"], "outcome": r["outcome"], "done": r["done"]}
           for i, (k, n, b, r) in enumerate(allres)]
   v, t = trace_validate("SingletonTrace", recs)
@@ -62,7 +77,8 @@ def c30(tier):
 
 # ------------------------------------------------------------------ C25
 REG_OPS = ["append", "attr", "ev_name", "ev_num", "name_for", "inner", "attr", "ev_name"]
-REG_NAMES = ["NA", "NB", "NC", "ND", "ENTRY_SIGNAL", "SEARCH_FOR_SUPER_SIGNAL"]
+REG_NAMES = ["NA", "NB", "NC", "ND", "ENTRY_SIGNAL", "SEARCH_FOR_SUPER_SIGNAL",
+             "update", "items", "highest_inner_signal"]   # names that are also attributes of the registry object (never used through attribute access)
 
 
 def _reg_work(args):
@@ -97,7 +113,8 @@ def c25(tier):
   run = common.Run("C25", tier, "model_checking")
   run.assumptions += ASSUME_B + ["pre-emption points: every source line of miros/event.py, every dictionary operation of the registry (membership, len, get, set) and between the "
                                  "elements of a Python-level loop over a view; a view consumed by C code (list(), `in`) is one atomic operation",
-                                 "names are identifier-shaped and are not attributes of the registry object"]
+                                 "names are identifier-shaped; a name that is an attribute of the registry object itself (update, items, ..) is only used "
+                                 "through Event / append / name_for_signal, never through attribute access"]
   cfg = ("SPECIFICATION Spec\nCONSTANTS Threads = {\"t1\", \"t2\"}\nProg <- ProgDef\nVariant = \"locked\"\nBuiltins = 10\n"
          "INVARIANT Injective\nINVARIANT Positive\nINVARIANT Stable\nINVARIANT SeenInjective\n")
   r = tlc.run("Signals.tla", cfg, workers=4, timeout=600)
@@ -167,6 +184,8 @@ def _rt_work(args):
       known = [[k, v] for k, v in fresh.items()]
       evs = []
       names = ["RT_%s%d" % (rng.choice("abcXYZ_"), rng.randrange(6)) for _ in range(4)] + ["ENTRY_SIGNAL", "A1"]
+      # "any signal name": also names that happen to be attributes of the registry object itself, and names that are not identifiers
+      names += rng.sample(["update", "clear", "items", "append", "keys", "pop", "highest_inner_signal", "name_for_signal", "two words", "x-y"], 3)
       for _ in range(rng.randint(2, 8)):
         name = rng.choice(names)
         pay = _payload(rng)
@@ -192,7 +211,8 @@ def c26(tier):
   run = common.Run("C26", tier, "other")
   run.assumptions += ["payloads are JSON-representable (None, booleans, finite numbers, strings, lists, string-keyed dicts); equality of payloads is "
                       "equality of their canonical JSON text (sorted keys), compared by TLC on the logged texts",
-                      "the sending side has its own registry (another process): numbers are never carried over, only names"]
+                      "the sending side has its own registry (another process): numbers are never carried over, only names",
+                      "signal names include names of the registry object's own attributes (update, items, append, ..) and non-identifiers"]
   n = 3000 if tier == "quick" else 60000
   chunk = max(1, (n + 63) // 64)
   with mp.get_context("fork").Pool(16) as pool:
